@@ -1,6 +1,6 @@
 """C10 - generated files are syntactically well-formed in their target language.
 Proof: Props/C10.v (lexical half proved over the layout layer of the byte-faithful back-end models;
-keyword escapes over the Decl observation; grammar validated, not proved).
+keyword escapes over the Decl observation; grammar: proved for TypeScript (C10_grammar_typescript) and Scala (C10_grammar_scala: the recogniser of Spec/C10ScGrammar.v accepts every file sc_generate writes outside the recorded finding classes), layout level for Go, validated for the others).
 Correspondence, per case (language, configuration, Rust source):
   * the REAL generator (libdrive `generate`: parse -> reconcile -> Language::generate_types) and the
     extracted model (`gen_src`) on the same source; the bytes must be equal (fidelity is decisive here);
